@@ -107,6 +107,20 @@ func (r *Report) floor(rule string, got, min int, what string) {
 	}
 }
 
+// floorSoft: for counts of internal constructs (instructions, paths), which
+// legitimately shrink when code is de-duplicated or restructured: the floor is
+// half of the hand-confirmed count (at least one), enough to notice a rule
+// that has gone vacuous without tripping on a refactoring.
+func (r *Report) floorSoft(rule string, got, confirmed int, what string) {
+	min := confirmed / 2
+	if min < 1 {
+		min = 1
+	}
+	if got < min {
+		r.floors = append(r.floors, fmt.Sprintf("%s: %d %s found, floor is %d (half of the %d confirmed by hand)", rule, got, what, min, confirmed))
+	}
+}
+
 func (r *Report) sample(v any) {
 	if len(r.samples) < 12 {
 		r.samples = append(r.samples, v)
